@@ -1,0 +1,98 @@
+//go:build verif
+
+package signaling_rpc_server
+
+import (
+	"fmt"
+	"sort"
+	"strings"
+	"sync"
+)
+
+// VerifSink receives one line per server critical section (called with s.mtx held, so the
+// lines of one server are totally ordered). Set by the verification harness.
+var VerifSink func(line string)
+
+var verifSinkMtx sync.Mutex
+
+func verifEmit(line string) {
+	verifSinkMtx.Lock()
+	sink := VerifSink
+	verifSinkMtx.Unlock()
+	if sink != nil {
+		sink(line)
+	}
+}
+
+// VerifSetSink sets the event sink.
+func VerifSetSink(f func(line string)) {
+	verifSinkMtx.Lock()
+	VerifSink = f
+	verifSinkMtx.Unlock()
+}
+
+func verifOptU(p *uint64) string {
+	if p == nil {
+		return "-"
+	}
+	return fmt.Sprint(*p)
+}
+
+func verifAtt(a *sessionPeerTracker) string {
+	if a == nil {
+		return "nil"
+	}
+	recv := "-"
+	if a.recv != nil {
+		recv = fmt.Sprint(a.recv.GetSeqno())
+	}
+	return fmt.Sprintf("%p/%s/%s/%s/%s", a, recv, verifOptU(a.recvSent), verifOptU(a.recvClear), verifOptU(a.outAcked))
+}
+
+// verifSnapshot renders the whole server state canonically. Caller holds s.mtx.
+func verifSnapshot(s *Server) string {
+	var peers []string
+	for pid, t := range s.peers {
+		var wants []string
+		for w := range t.wantPeers {
+			wants = append(wants, w)
+		}
+		sort.Strings(wants)
+		peers = append(peers, fmt.Sprintf("%s:%p:%v:%d:%s", pid, t, t.listening, t.listenNonce, strings.Join(wants, "+")))
+	}
+	sort.Strings(peers)
+	var sessions []string
+	for k, t := range s.sessions {
+		sessions = append(sessions, fmt.Sprintf("%s~%s:%p:%d:%s:%s", k.peerA, k.peerB, t, t.seqno, verifAtt(t.peerA), verifAtt(t.peerB)))
+	}
+	sort.Strings(sessions)
+	return "peers=[" + strings.Join(peers, ",") + "] sessions=[" + strings.Join(sessions, ",") + "]"
+}
+
+func verifSessionEvent(s *Server, kind string, strm any, sess *sessionTracker, att *sessionPeerTracker, src, dst string, a, b uint64) {
+	verifEmit(fmt.Sprintf("ev=%s call=%p sess=%p att=%p src=%s dst=%s a=%d b=%d sessq=%d sessA=%s sessB=%s %s",
+		kind, strm, sess, att, src, dst, a, b, sess.seqno, verifAtt(sess.peerA), verifAtt(sess.peerB), verifSnapshot(s)))
+}
+
+func verifListenEvent(s *Server, kind string, strm any, tkr *serverPeerTracker, pid string, nonce uint64, want, notWant string) {
+	var wants []string
+	for w := range tkr.wantPeers {
+		wants = append(wants, w)
+	}
+	sort.Strings(wants)
+	if want == "" {
+		want = "-"
+	}
+	if notWant == "" {
+		notWant = "-"
+	}
+	verifEmit(fmt.Sprintf("ev=%s call=%p tkr=%p pid=%s nonce=%d want=%s notwant=%s tl=%v tn=%d tw=%s %s",
+		kind, strm, tkr, pid, nonce, want, notWant, tkr.listening, tkr.listenNonce, strings.Join(wants, "+"), verifSnapshot(s)))
+}
+
+// VerifCounts returns the number of peer trackers and session trackers held by the server.
+func (s *Server) VerifCounts() (int, int) {
+	s.mtx.Lock()
+	defer s.mtx.Unlock()
+	return len(s.peers), len(s.sessions)
+}
